@@ -2,7 +2,7 @@
     Statements only; every proof is [exact <lemma of proof/C15_Proof.v>]. *)
 From stdpp Require Import gmap strings sets pretty sorting.
 From SK Require Import model.C15_Model proof.C15_Proof.
-From SK Require Import model.C15_Ext proof.C15_Ext proof.C15_ExtQ proof.C15_ExtP proof.C15_ExtS proof.C15_ExtM proof.C15_ExtEx.
+From SK Require Import model.C15_Ext proof.C15_Ext proof.C15_ExtQ proof.C15_ExtP proof.C15_ExtS proof.C15_ExtM proof.C15_ExtH proof.C15_ExtEx.
 Local Open Scope string_scope.
 
 (** ** 1. The store invariant *)
@@ -486,3 +486,57 @@ Theorem C15_dense_spec : forall (s : net),
   (forall x e, (forall v, (x, e, v) ∉ incidence s) -> dense_entry s x e = 0%Z).
 Proof. exact dense_full. Qed.
 Print Assumptions C15_dense_spec.
+
+(** *** whole histories *)
+
+(** a stored reaction survives, under its id and with its stoichiometry, every
+    continuation of the history that does not remove it, strip one of its
+    species, overwrite its network by a copy, or coefficient-edit it *)
+Theorem C15_history_stored_kept : forall (ops : list op2) (w : world2) (k : nat) (e : string) (rx : rxn),
+  Forall Inv (nets w) -> edges (getn (nets w) k) !! e = Some rx ->
+  Forall (fun o => ~ match o with
+                     | OBase (ORemoveRxn i e') => i = k /\ e' = e
+                     | OBase (ORemoveSpecies i x _) => i = k /\ x ∈ rxn_species rx
+                     | OBase (OCopy _ j) => j = k
+                     | OSideSet i e' _ _ _ | OSideIncr i e' _ _ _ => i = k /\ e' = e
+                     | _ => False
+                     end) ops ->
+  edges (getn (nets (fold_left (fun w o => (step2 w o).1.1) ops w)) k) !! e = Some rx.
+Proof.
+  intros ops w k e rx Hw He Hall. apply run2_stored_kept; [exact Hw|exact He|].
+  eapply Forall_impl; [exact Hall|]. intros o Hn Hd. apply Hn. destruct o as [[]| | | | | | | | | |]; exact Hd.
+Qed.
+Print Assumptions C15_history_stored_kept.
+
+(** the property's first clause, literally: after ANY history [pre] from empty
+    networks, a successful add (any input form, generated or caller-chosen id)
+    hands back the id [e] under which the reaction is stored — the caller's id if
+    one was given, an id that named no reaction otherwise — and after ANY
+    continuation [post] that does not name that reaction it is still stored
+    under [e] with exactly the normalised stoichiometry it was given *)
+Theorem C15_history_added_kept : forall (n p : nat) (pre post : list op2) (i : nat) (l r : list item)
+                                        (rule : string) (eid : option string),
+  (i < n)%nat ->
+  (step2 (fold_left (fun w o => (step2 w o).1.1) pre (init_world2 n p)) (OAddItems i l r rule eid)).1.2 = None ->
+  exists e, (forall e0, eid = Some e0 -> e = e0) /\
+    (step2 (fold_left (fun w o => (step2 w o).1.1) pre (init_world2 n p)) (OAddItems i l r rule eid)).2 = Tok.tstr e /\
+    edges (getn (nets (fold_left (fun w o => (step2 w o).1.1) pre (init_world2 n p))) i) !! e = None /\
+    (Forall (fun o => ~ match o with
+                       | OBase (ORemoveRxn i' e') => i' = i /\ e' = e
+                       | OBase (ORemoveSpecies i' x _) =>
+                           i' = i /\ x ∈ rxn_species (Rxn (norm_rule rule) (normalize_items l) (normalize_items r))
+                       | OBase (OCopy _ j) => j = i
+                       | OSideSet i' e' _ _ _ | OSideIncr i' e' _ _ _ => i' = i /\ e' = e
+                       | _ => False
+                       end) post ->
+     edges (getn (nets (fold_left (fun w o => (step2 w o).1.1) post
+              (step2 (fold_left (fun w o => (step2 w o).1.1) pre (init_world2 n p)) (OAddItems i l r rule eid)).1.1)) i) !! e
+     = Some (Rxn (norm_rule rule) (normalize_items l) (normalize_items r))).
+Proof.
+  intros n p pre post i l r rule eid Hi Her.
+  destruct (history_added_kept n p pre post i l r rule eid Hi Her) as (e & H1 & H2 & H3 & H4).
+  exists e. split; [exact H1|]. split; [exact H2|]. split; [exact H3|].
+  intros Hall. apply H4. eapply Forall_impl; [exact Hall|].
+  intros o Hn Hd. apply Hn. destruct o as [[]| | | | | | | | | |]; exact Hd.
+Qed.
+Print Assumptions C15_history_added_kept.
